@@ -1041,3 +1041,77 @@ Proof.
   pose proof (decode_encode e t v2 b2 x2 He W2 H2) as D2.
   rewrite E in D1. rewrite D1 in D2. injection D2 as -> ->. split; reflexivity.
 Qed.
+
+(* ---------------------------------------------------------------- one element too many (C12) *)
+(* a sequence whose count exceeds the capacity is rejected when its (cap+1)-th element has been read:
+   [l] are the first cap + 1 - |acc| elements, all of them valid encodings; whatever follows is irrelevant *)
+Lemma concat_opt_cons : forall o l, concat_opt (o :: l) =
+  match o with None => None | Some b => match concat_opt l with Some t => Some (b ++ t) | None => None end end.
+Proof. intros [b|] l; reflexivity. Qed.
+
+Lemma seq_loop_overflow : forall (decf : bytes -> res (val * bytes)) (serf : val -> option bytes) cap l v fuel n acc body rest,
+  (forall v0 b, In v0 (v :: l) -> serf v0 = Some b -> forall r, decf (b ++ r) = Ok (v0, r)) ->
+  concat_opt (map serf (v :: l)) = Some body ->
+  blen acc + blen (v :: l) = cap + 1 -> blen (v :: l) <= n ->
+  (List.length (v :: l) <= fuel)%nat ->
+  seq_loop decf fuel n cap acc (body ++ rest) = Err SerdeDeCustom.
+Proof.
+  intros decf serf cap l. induction l as [|v' l IH]; intros v fuel n acc body rest Hrt Hc Hcap Hn Hf.
+  - cbn [map concat_opt] in Hc. destruct (serf v) as [b|] eqn:Es; [|discriminate]. injection Hc as <-.
+    cbn [List.length] in Hf. destruct fuel as [|fuel]; [lia|].
+    rewrite blen_cons in *. cbn [blen List.length] in Hcap, Hn. cbn [seq_loop].
+    destruct (n <=? 0) eqn:E; [unfold blen in *; cbn in *; lia|].
+    rewrite app_nil_r. rewrite (Hrt v b (or_introl eq_refl) Es). cbn [bind].
+    destruct (blen acc <? cap) eqn:E2; [unfold blen in *; cbn in *; lia|reflexivity].
+  - change (map serf (v :: v' :: l)) with (serf v :: map serf (v' :: l)) in Hc. rewrite concat_opt_cons in Hc.
+    destruct (serf v) as [b|] eqn:Es; [|discriminate].
+    destruct (concat_opt (map serf (v' :: l))) as [body'|] eqn:Ec; [|discriminate]. injection Hc as <-.
+    cbn [List.length] in Hf. destruct fuel as [|fuel]; [lia|].
+    rewrite (blen_cons v) in *. pose proof (blen_nonneg l). rewrite (blen_cons v') in *. pose proof (blen_nonneg acc).
+    cbn [seq_loop]. destruct (n <=? 0) eqn:E; [lia|].
+    rewrite <- app_assoc. rewrite (Hrt v b (or_introl eq_refl) Es). cbn [bind].
+    destruct (blen acc <? cap) eqn:E2; [|lia].
+    apply (IH v' fuel (n - 1) (v :: acc) body' rest).
+    + intros v0 b0 Hin. apply Hrt. right. exact Hin.
+    + exact Ec.
+    + rewrite !blen_cons. lia.
+    + rewrite blen_cons. lia.
+    + cbn [List.length] in *. lia.
+Qed.
+
+(* the count rule of heapless::Vec<T, N>, both sides of the boundary: a sequence of well-typed elements is
+   delivered whole when its count is at most N; with N + 1 or more elements announced and N + 1 valid
+   elements present it is rejected, whatever follows *)
+Theorem vec_count_exact : forall e k u cap l,
+  env_rt e = true -> forallb (wt e k u) l = true -> 0 <= cap ->
+  forall body, concat_opt (map (ser e k u) l) = Some body ->
+  (blen l <= cap -> blen l < lim32 -> forall rest,
+     dec e (S k) (TVec u cap) (put_head 4 (blen l) ++ body ++ rest) = Ok (VList l, rest)) /\
+  (blen l = cap + 1 -> forall n rest, blen l <= n < lim32 ->
+     dec e (S k) (TVec u cap) (put_head 4 n ++ body ++ rest) = Err SerdeDeCustom).
+Proof.
+  intros e k u cap l He Hall Hc body Hb.
+  assert (Hel : forall v b, In v l -> ser e k u v = Some b -> forall r, dec e k u (b ++ r) = Ok (v, r)).
+  { intros v b Hin Hs r. rewrite forallb_forall in Hall.
+    apply (ser_dec_roundtrip e He k u v b (Hall v Hin) Hs k r). lia. }
+  assert (Hlen : (List.length l <= List.length body)%nat).
+  { assert (Hl : (List.length (map (ser e k u) l) <= List.length body)%nat).
+    { apply concat_opt_length; [exact Hb|]. intros o Ho b0 ->. apply in_map_iff in Ho.
+      destruct Ho as [v0 [Hs _]]. apply (ser_nonempty _ _ _ _ _ Hs). }
+    rewrite map_length in Hl. exact Hl. }
+  split.
+  - intros Hle Hlim rest. cbn [dec]. unfold lim32 in Hlim.
+    rewrite raw_u32_put_head by (pose proof (blen_nonneg l); lia). cbn [bind].
+    rewrite (seq_loop_roundtrip (dec e k u) (ser e k u) cap l _ [] body rest Hel Hb).
+    + reflexivity.
+    + cbn. lia.
+    + rewrite app_length. lia.
+  - intros Heq n rest Hn. cbn [dec]. unfold lim32 in Hn.
+    rewrite raw_u32_put_head by (pose proof (blen_nonneg l); lia). cbn [bind].
+    destruct l as [|v l]; [cbn in Heq; lia|].
+    rewrite (seq_loop_overflow (dec e k u) (ser e k u) cap l v _ n [] body rest Hel Hb).
+    + reflexivity.
+    + change (blen (@nil val)) with 0. lia.
+    + lia.
+    + rewrite app_length. lia.
+Qed.
